@@ -46,13 +46,16 @@ def seeded_md():
     r4 = json.load(open('/verif/seeded/ROUND4_BLIND.json')) if os.path.exists('/verif/seeded/ROUND4_BLIND.json') else {'blind_detected': {}, 'notes': {}}
     r5 = json.load(open('/verif/seeded/ROUND5_BLIND.json')) if os.path.exists('/verif/seeded/ROUND5_BLIND.json') else {'blind_detected': {}, 'notes': {}}
     r6 = json.load(open('/verif/seeded/ROUND6_BLIND.json')) if os.path.exists('/verif/seeded/ROUND6_BLIND.json') else {'blind_detected': {}, 'notes': {}}
+    r7 = json.load(open('/verif/seeded/ROUND7_BLIND.json')) if os.path.exists('/verif/seeded/ROUND7_BLIND.json') else {'blind_detected': {}, 'notes': {}}
     out = ['| seeded change | round | what it does | needs to manifest | caught by (now) | detected blind (rule existed before the change was seen) |\n|---|---|---|---|---|---|']
-    nb = [0, 0, 0, 0, 0, 0, 0, 0, 0, 0, 0, 0]
+    nb = [0] * 14
     for k in sorted(res):
         m = json.load(open('/verif/seeded/%s/meta.json' % k))
         s = (m.get('summary') or '')[:160].replace('|', '/').replace('\n', ' ')
         nd = str(m.get('needs_to_manifest') or '')[:140].replace('|', '/').replace('\n', ' ')
-        if k in r6['blind_detected']:
+        if k in r7['blind_detected']:
+            rnd, blind = 7, r7['blind_detected'][k]
+        elif k in r6['blind_detected']:
             rnd, blind = 6, r6['blind_detected'][k]
         elif k in r5['blind_detected']:
             rnd, blind = 5, r5['blind_detected'][k]
@@ -66,12 +69,12 @@ def seeded_md():
             rnd, blind = 1, bool(m.get('static_check_result', {}).get('rule_existed_before_this_change_was_seen'))
         nb[(rnd - 1) * 2] += 1
         nb[(rnd - 1) * 2 + 1] += 1 if blind else 0
-        note = r2['notes'].get(k, '') or r3.get('notes', {}).get(k, '') or r4.get('notes', {}).get(k, '') or r5.get('notes', {}).get(k, '') or r6.get('notes', {}).get(k, '')
+        note = r2['notes'].get(k, '') or r3.get('notes', {}).get(k, '') or r4.get('notes', {}).get(k, '') or r5.get('notes', {}).get(k, '') or r6.get('notes', {}).get(k, '') or r7.get('notes', {}).get(k, '')
         out.append('| %s | %d | %s | %s | %s | %s |' % (k, rnd, s, nd, ', '.join(res[k].get('rules', [])) or res[k]['status'],
                                                          ('yes' if blind else 'no') + ((' -- ' + note) if note else '')))
     n = sum(1 for v in res.values() if v['status'] == 'detected')
-    out.append('\nDetected now: %d of %d. Blind: round 1 %d of %d (most round-1 rules were written after reading the change), round 2 %d of %d, round 3 %d of %d, round 4 %d of %d, round 5 %d of %d, round 6 %d of %d.' % (
-        n, len(res), nb[1], nb[0], nb[3], nb[2], nb[5], nb[4], nb[7], nb[6], nb[9], nb[8], nb[11], nb[10]))
+    out.append('\nDetected now: %d of %d. Blind: round 1 %d of %d (most round-1 rules were written after reading the change), round 2 %d of %d, round 3 %d of %d, round 4 %d of %d, round 5 %d of %d, round 6 %d of %d, round 7 %d of %d.' % (
+        n, len(res), nb[1], nb[0], nb[3], nb[2], nb[5], nb[4], nb[7], nb[6], nb[9], nb[8], nb[11], nb[10], nb[13], nb[12]))
     return '\n'.join(out)
 
 
@@ -151,6 +154,22 @@ def benign_md():
         out.append('\nRound 6 (`Cxx-f1`, `-f2`: ten medium refactorings aimed at the functions inspected by the rules written during benign round 5 and seed round 6 -- '
                    'accumulate_with, split_words, str_match_fn / match_words, BatchLimit, the last lines of CharString::new, run_length_decode), FIRST run: %d changes, '
                    '%d silent, %d false alarms. First-run alarms: %s.' % (n6, n6 - a6, a6, '; '.join('%s (%s)' % (k, v['alarms'][0][:70].replace('|', '/')) for k, v in sorted(fr.items()) if v['status'] != 'silent') or 'none'))
+    f7 = '/verif/benign/ROUND7_FIRST.json'
+    if os.path.exists(f7):
+        fr = json.load(open(f7))
+        n7 = len(fr)
+        a7 = sum(1 for v in fr.values() if v['status'] != 'silent')
+        out.append('\nRound 7 (`Cxx-g1`, `-g2`: twenty medium refactorings REQUIRED to change the functions inspected by the rules written after seed round 6 and by the handmade '
+                   'probes), FIRST run: %d changes, %d silent, %d false alarms. First-run alarms: %s.' % (
+                       n7, n7 - a7, a7, '; '.join('%s (%s)' % (k, v['alarms'][0][:70].replace('|', '/')) for k, v in sorted(fr.items()) if v['status'] != 'silent') or 'none'))
+    f8 = '/verif/benign/ROUND8_FIRST.json'
+    if os.path.exists(f8):
+        fr = json.load(open(f8))
+        n8 = len(fr)
+        a8 = sum(1 for v in fr.values() if v['status'] != 'silent')
+        out.append('\nRound 8 (`Cxx-h1`, `-h2`: twenty medium refactorings of the functions inspected by the rules written after seed round 7), FIRST run: %d changes, '
+                   '%d silent, %d false alarms. First-run alarms: %s.' % (
+                       n8, n8 - a8, a8, '; '.join('%s (%s)' % (k, v['alarms'][0][:70].replace('|', '/')) for k, v in sorted(fr.items()) if v['status'] != 'silent') or 'none'))
     return '\n'.join(out)
 
 
